@@ -115,6 +115,9 @@ func readCTBOBox(b *box) (ctbo CTBOBox, err error) {
 	if err != nil {
 		return ctbo, err
 	}
+	if len(buf) < 4 {
+		return ctbo, errCTBOLength
+	}
 	// Item Count
 	ctbo.count = crxEndian.Uint32(buf[0:4])
 
